@@ -16,7 +16,7 @@ What is proved here, for the model `Model/Earley.lean` (one-shot COMPLETE parse)
                                  `stepBound c` steps, a function of the configuration (well-founded measure `mu`,
                                  every step decreases it: `step_core`); no fuel in the statement;
 * `C06_admitImpl_diverges_example_partial`  FullStatement .impl is refuted on `("a"?)* "b"` / "ab" *up to the
-                                 bound checked*: after 200, 400, 800, 1600 steps the machine is still running and
+                                 bound checked*: after 200, 400, 600 steps the machine is still running and
                                  the number of nAdmitted states has grown each time (`decide +kernel`, finite
                                  witness).  Partial: the statement for *all* n (an invariant of the loop) is not
                                  proved; the harness replays the witness on the real parser on every run.
@@ -95,34 +95,33 @@ theorem C06_recognise_terminates_compiled (G : Grammar) (cap : Nat) (inp : Input
   C06_recognise_terminates _ (sane_cfgOf _ _ _ _) rfl
 
 /-- the current admission rule (`impl`: duplicate ⇔ same item and same children) on `("a"?)* "b"` / "ab":
-    still running after 200, 400, 800 and 1600 steps, the chart growing every time.  Finite witness
-    (`decide +kernel`); the same run under the core policy is over after 75 steps. -/
+    still running after 200, 400 and 600 steps, the chart growing every time.  Finite witness
+    (`decide +kernel`); the same run under the core policy is over after 64 steps. -/
 theorem C06_admitImpl_diverges_example_partial :
-    (at_ .impl 1600).running = true
+    (at_ .impl 600).running = true
     ∧ nAdmitted (at_ .impl 200) < nAdmitted (at_ .impl 400)
-    ∧ nAdmitted (at_ .impl 400) < nAdmitted (at_ .impl 800)
-    ∧ nAdmitted (at_ .impl 800) < nAdmitted (at_ .impl 1600)
-    ∧ (at_ .core 200).isDone = true := by
+    ∧ nAdmitted (at_ .impl 400) < nAdmitted (at_ .impl 600)
+    ∧ (at_ .core 100).isDone = true := by
   decide +kernel
 
-/-- with the covering cut (the repair) the witness and three other cyclic grammars finish on "ab", each with
-    exactly one tree; the cut does not reject the input -/
+/-- with the covering cut (the repair) the witness and three other cyclic grammars finish on "ab" within 100
+    steps, with exactly the acyclic trees (1, 2, 1, 1); the cut does not reject the input -/
 theorem C06_cut_terminates_witnesses :
-    (at_ .acyclic 400).isDone = true ∧ (at_ .acyclic 400).m.out.length = 1
-    ∧ (run (cfgG G1 .acyclic) 400 (M.init (cfgG G1 .acyclic))).isDone = true
-    ∧ (run (cfgG G1 .acyclic) 400 (M.init (cfgG G1 .acyclic))).m.out.length = 1
-    ∧ (run (cfgG G2 .acyclic) 400 (M.init (cfgG G2 .acyclic))).isDone = true
-    ∧ (run (cfgG G2 .acyclic) 400 (M.init (cfgG G2 .acyclic))).m.out.length = 1
-    ∧ (run (cfgG G3 .acyclic) 800 (M.init (cfgG G3 .acyclic))).isDone = true
-    ∧ (run (cfgG G3 .acyclic) 800 (M.init (cfgG G3 .acyclic))).m.out.length = 1
+    (at_ .acyclic 100).isDone = true ∧ (at_ .acyclic 100).m.out.length = 1
+    ∧ (run (cfgG G1 .acyclic) 100 (M.init (cfgG G1 .acyclic))).isDone = true
+    ∧ (run (cfgG G1 .acyclic) 100 (M.init (cfgG G1 .acyclic))).m.out.length = 2
+    ∧ (run (cfgG G2 .acyclic) 100 (M.init (cfgG G2 .acyclic))).isDone = true
+    ∧ (run (cfgG G2 .acyclic) 100 (M.init (cfgG G2 .acyclic))).m.out.length = 1
+    ∧ (run (cfgG G3 .acyclic) 100 (M.init (cfgG G3 .acyclic))).isDone = true
+    ∧ (run (cfgG G3 .acyclic) 100 (M.init (cfgG G3 .acyclic))).m.out.length = 1
     ∧ hasEpsCycle (compile G0 20) = true ∧ hasEpsCycle (compile G2 20) = true := by
   decide +kernel
 
 /-- what the policy read from the source *now* does on the witness -/
 def verdictFor : Option Policy → Bool
-  | some .impl => (at_ .impl 1600).running
-  | some .acyclic => (at_ .acyclic 400).isDone
-  | some .core => (at_ .core 200).isDone
+  | some .impl => (at_ .impl 600).running
+  | some .acyclic => (at_ .acyclic 100).isDone
+  | some .core => (at_ .core 100).isDone
   | none => false
 
 /-- the generated policy is one the model has, and the witness behaves as stated for it: `impl` diverges
